@@ -374,8 +374,13 @@ class C18(Prop):
                     unresolved = []
                     for path, val in r:
                         try:
-                            g = x.get(list(path), SENT)
-                            ok = g is not SENT and g == val
+                            keep = list(path)
+                            g = x.get(path, SENT)        # the path object exactly as findall handed it out
+                            g2 = x.get(path, SENT)       # ... and once more: resolving a result does not use it up
+                            ok = g is not SENT and g == val and g2 is not SENT and g2 == val and list(path) == keep
+                            if g is not SENT and g == val and not ok:
+                                g = "first get resolved; afterwards the pair's path is %r and resolves to %s" % (
+                                    list(path), "<default>" if g2 is SENT else repr(g2)[:60])
                         except Exception as e:  # noqa
                             ok, g = False, "%s" % type(e).__name__
                         if not ok:
